@@ -125,7 +125,7 @@ func TestVerifC07(t *testing.T) {
 		Kind  string `json:"kind"`
 	}
 	var faults []fault
-	for _, k := range []string{"neterr", "500", "404", "garbage"} {
+	for _, k := range []string{"neterr", "500", "404", "garbage", "500-x14"} {
 		faults = append(faults, fault{"list", k})
 	}
 	for _, k := range []string{"neterr-x3", "500-x3", "neterr-then-ok", "404", "garbage", "badheader"} {
@@ -163,6 +163,9 @@ func TestVerifC07(t *testing.T) {
 			t.Fatal(err)
 		}
 		for fi, f := range faults {
+			if f.Kind == "500-x14" && config != "plain" {
+				continue
+			}
 			// written through at once: if the process dies, the fault in progress is on record
 			out.emit(map[string]interface{}{"kind": "fault-start", "config": config, "fault": f})
 			out.mu.Lock()
@@ -191,9 +194,16 @@ func TestVerifC07(t *testing.T) {
 			switch f.Point {
 			case "list":
 				lists = append(lists, during)
-				kind := map[string]int{"neterr": verifNetErr, "500": verif500, "404": verif404, "garbage": verifGarbage}[f.Kind]
+				kind := map[string]int{"neterr": verifNetErr, "500": verif500, "404": verif404, "garbage": verifGarbage, "500-x14": verif500}[f.Kind]
 				fp.listKinds = []int{verifOK, verifOK, kind, kind}
 				lists = append(lists, nil, nil)
+				if f.Kind == "500-x14" {
+					// a long outage of the pending-list endpoint: the requests listed after it must still be served promptly
+					for k := 0; k < 12; k++ {
+						fp.listKinds = append(fp.listKinds, kind)
+						lists = append(lists, nil)
+					}
+				}
 			case "fetch":
 				script := map[string][]int{"neterr-x3": {verifNetErr, verifNetErr, verifNetErr}, "500-x3": {verif500, verif500, verif500}, "neterr-then-ok": {verifNetErr},
 					"404": {verif404}, "garbage": {verifGarbage}, "badheader": {verifBadHeader}}[f.Kind]
@@ -264,6 +274,7 @@ func TestVerifC07(t *testing.T) {
 			ctx, cancel := context.WithCancel(context.Background())
 			fp.afterList = cancel
 			done := make(chan struct{})
+			loopStart := time.Now()
 			go func() { pollForNewRequests(ctx, &http.Client{Transport: fp}, hp, "verif-backend"); close(done) }()
 			select {
 			case <-done:
@@ -271,6 +282,7 @@ func TestVerifC07(t *testing.T) {
 				out.emit(map[string]interface{}{"kind": "fault", "config": config, "fault": f, "error": "poll loop wedged"})
 				continue
 			}
+			loopMs := time.Since(loopStart).Milliseconds()
 			<-sepDone
 			expectProbes := len(before) + len(after) + len(during)
 			fp.quiesce(300*time.Millisecond, 15*time.Second, func() bool {
@@ -352,7 +364,7 @@ func TestVerifC07(t *testing.T) {
 				}
 			}
 			fp.mu.Unlock()
-			res := map[string]interface{}{"kind": "fault", "config": config, "fault": f, "fault_upload_status": faultStatus, "followup_statuses": followup}
+			res := map[string]interface{}{"kind": "fault", "config": config, "fault": f, "fault_upload_status": faultStatus, "followup_statuses": followup, "loop_ms": loopMs}
 			for name, ids := range map[string][]string{"before": before, "during": during, "after": after} {
 				ok := 0
 				for _, id := range ids {
